@@ -85,8 +85,8 @@ def score_check(ctx):
         rr = [r0 for r0 in ctx.tlc_runs if r0['module'] in ('MC_Score3x', 'MC_Score40_views', 'MC_Score20')]
         outp = rr[0]['out']
         ncold = 0
-        for k in range(40 if thorough else 10):
-            s0 = ctx.harness('coldstart', prop=pid, **{'in': outp, 'seed': ctx.seed * 100 + k * 7})
+        for k in range(80 if thorough else 24):
+            s0 = ctx.harness('coldstart', prop=pid, **{'in': outp, 'seed': ctx.seed * 100 + k})
             viol.extend(s0['violations'])
             ncold += s0['evaluations']
         cov.setdefault('compared', {})['first-use calls made concurrently in fresh processes'] = ncold
